@@ -165,7 +165,7 @@ def arith : Arith FV := arithOf prim
 def natDigitsB (n : Nat) : Bytes := (Nat.toDigits 10 n).map (fun c => UInt8.ofNat c.toNat)
 
 /-- Shortest decimal `c·10^x` (as digits `c`, exponent `x`) that reads back as the finite
-    positive float with bit pattern `bits`; among equally short ones the closest. -/
+    positive float with bit pattern `bits`; among equally short ones the closest, ties to the even digit. -/
 def shortest (bits : UInt64) : Nat × Int :=
   let (_, num, sh) := decode (Float.ofBits bits)
   let den := pow2 sh
@@ -183,7 +183,8 @@ def shortest (bits : UInt64) : Nat × Int :=
       (if x ≥ 0 then ratToBits (c * 10 ^ x.toNat) 1 else ratToBits c (10 ^ (-x).toNat)) == bits
     let okLo := back lo
     let okHi := back (lo + 1)
-    if okLo && okHi then (if 2 * rem ≤ sd then some (lo, x) else some (lo + 1, x))
+    if okLo && okHi then
+      (if 2 * rem < sd || (2 * rem == sd && lo % 2 == 0) then some (lo, x) else some (lo + 1, x))   -- ties: even digit
     else if okLo then some (lo, x)
     else if okHi then some (lo + 1, x)
     else none
